@@ -4,8 +4,12 @@
    produce at a clock reading | the process dies inside a boot / reap / produce after k of its datastore writes
    (every write boundary; with or without the ExecuteTxs call that follows the last durable write) | write attempt
    number k of a boot / reap / produce returns an error once and the process lives on (a transient datastore fault at
-   EVERY write of every action: IFault).  Queue-full refusals are the reaps that find the queue at its bound [max];
-   bursts of any length are histories.
+   EVERY write of every action: IFault) | a produce step whose ExecuteTxs call returns an error (IExecFail: a
+   transient failure of the execution layer, the process lives on) | a produce step DURING which a complete reap runs,
+   after any number of the step's acts (IMid: reaper loop and aggregation loop are concurrent goroutines).
+   Queue-full refusals are the reaps that find the queue at its bound [max]; bursts of any length are histories.
+   All the theorems over histories below quantify over these items too (an IExecFail / IMid item is neither a crash
+   nor a write fault: C11_no_dup_full covers them).
 
    The property AS WORDED is false of the code (C11_no_loss_clock_refuted, C11_no_loss_crash_refuted,
    C11_no_loss_fault_refuted: defects of block/manager.go, listed as known findings).  What holds:
@@ -21,7 +25,11 @@
      C11_handout_whole_full         a produce step that takes a batch takes ALL of it, whatever it holds (no size limit:
                                     GetNextBatchRequest.MaxBytes is not honoured by the single sequencer), deletes its
                                     record and — clock permitting — commits a block holding exactly that batch
-     C11_restart_keeps_queue_full   a clean restart rebuilds the queue from its records and touches nothing else *)
+     C11_restart_keeps_queue_full   a clean restart rebuilds the queue from its records and touches nothing else
+     C11_exec_failure_retried_full  a produce step whose ExecuteTxs fails has saved the block built from the batch it
+                                    took; the next produce step commits exactly that block
+     C11_concurrent_reap_same_block_full  a reap running in the middle of a produce step changes nothing of what the
+                                    step takes, builds, executes and commits *)
 From Coq Require Import NArith ZArith List Bool.
 From Verif Require Import Model.Reaper Proofs.ReaperProofs.
 Import ListNotations.
@@ -134,6 +142,42 @@ Theorem C11_restart_keeps_queue_full : forall (max : N) (gt : Z) (s : st),
   seen s' = seen s /\ mem s' = mem s /\ taken s' = taken s /\ released s' = released s.
 Proof. exact restart_keeps_records. Qed.
 Print Assumptions C11_restart_keeps_queue_full.
+
+(* In every state of a running node with a batch [b] at the head of the queue, no pending block, a readable last
+   header, the state record at the store height and a clock reading not before the last block's time: the produce
+   step whose ExecuteTxs call FAILS (manager.go applyBlock returns an error: a transient outage of the execution
+   layer, a cancelled context) has taken [b] (record deleted), written the cursor and SAVED the block holding [b]
+   before the call; it returns the error (result 12) and the node lives on; the NEXT produce step — at any clock
+   reading, it takes nothing from the sequencer — executes and commits exactly that block.  The batch released by
+   the sequencer is never held by the running step alone while the executor runs. *)
+Theorem C11_exec_failure_retried_full : forall (max : N) (gt : Z) (s : st) (ts ts' : Z) (b : batch) (q : list batch) (lt : option Z),
+  up s = true -> queue s = b :: q -> nth_error (blocks s) (th s) = None -> last_time s = Some lt ->
+  before ts lt = false -> sh s = th s ->
+  let s1 := step max gt s (IExecFail ts) in
+  let s2 := step max gt s1 (IRun (AProduce ts')) in
+  observe max gt s (IExecFail ts) = (12%N, [WQDel b; WMeta; WBlock (S (th s)) b ts false]) /\
+  queue s1 = q /\ released s1 = released s ++ [b] /\ th s1 = th s /\ up s1 = true /\
+  blocks s2 = blocks s ++ [{| b_txs := b; b_time := ts; b_signed := true |}] /\ th s2 = S (th s) /\ sh s2 = S (th s) /\
+  queue s2 = q /\ released s2 = released s ++ [b] /\
+  observe max gt s1 (IRun (AProduce ts')) = (3%N, [WBlock (S (th s)) b ts true; WState (S (th s)); WHeight (S (th s))]).
+Proof. exact execfail_retried. Qed.
+Print Assumptions C11_exec_failure_retried_full.
+
+(* In every state of a running node, for every point [p] of the produce step: the step during which a complete reap
+   runs (after its first S p acts: right after GetNextBatch has answered, after the cursor write, after the early
+   save, after ExecuteTxs, ...) leaves exactly the block records, state height, store height, released list, stale
+   records, mempool and result of the undisturbed step: the batch in the producer's hands is the batch the sequencer
+   released, whatever is handed to the sequencer meanwhile.  (The hand-off itself is the hand-off of a reap on the
+   state reached by those first acts — [item_acts]: its writes sit between the step's writes — and is covered, with
+   everything else, by the theorems over histories.) *)
+Theorem C11_concurrent_reap_same_block_full : forall (max : N) (gt : Z) (s : st) (ts : Z) (p : nat),
+  up s = true ->
+  let s' := step max gt s (IMid ts p) in let s0 := step max gt s (IRun (AProduce ts)) in
+  blocks s' = blocks s0 /\ sh s' = sh s0 /\ th s' = th s0 /\ released s' = released s0 /\ stale s' = stale s0 /\
+  mem s' = mem s0 /\ up s' = up s0 /\
+  fst (observe max gt s (IMid ts p)) = fst (observe max gt s (IRun (AProduce ts))).
+Proof. exact mid_same_block_fields. Qed.
+Print Assumptions C11_concurrent_reap_same_block_full.
 
 (* ---- the property as worded is false of the faithful model -------------------------------------------------- *)
 (* F12: nothing crashes; the batch [7] is taken with a clock reading (150) before the last block's time (200):
@@ -279,3 +323,39 @@ Example ex_handout :
   block_txs (run 0 0 s [IRun (AProduce 200); IRun ABoot; IRun (AProduce 300)]) = [[]; [10; 11]; [3]]%N /\
   queue (run 0 0 s [IRun (AProduce 200); IRun ABoot]) = [[3]]%N.
 Proof. vm_compute. repeat split; try reflexivity. discriminate. Qed.
+
+(* the hypotheses of C11_exec_failure_retried_full are met, and a history with a failing ExecuteTxs call is inside the
+   guard of C11_no_loss_partial, crash-free and fault-free: [3] is taken by the step whose execution fails (result 12,
+   the block is saved early), committed by the next step; the failing call on the pending block (second IExecFail)
+   changes nothing *)
+Definition ex_hx : list item :=
+  [IRun ABoot; IRun (AProduce 100); IArrive 3; IRun AReap; IExecFail 200; IExecFail 250; IArrive 4; IRun AReap;
+   IRun (AProduce 300); IRun (AProduce 400); IRun AReap].
+
+Example ex_execfail :
+  let s := final 1 0 [IRun ABoot; IRun (AProduce 100); IArrive 3; IRun AReap] in
+  up s = true /\ queue s = [[3%N]] /\ nth_error (blocks s) (th s) = None /\ last_time s = Some (Some 0%Z) /\ sh s = th s /\
+  safe_hist 1 0 st0 ex_hx = true /\ crash_free ex_hx = true /\ fault_free ex_hx = true /\ quiescedb (final 1 0 ex_hx) = true /\
+  committed (final 1 0 ex_hx) = [[]; [3]; [4]]%N /\
+  map (fun o => fst o) (observations 1 0 st0 ex_hx) = [1; 3; 0; 2; 12; 12; 0; 2; 3; 3; 2]%N /\
+  map b_time (blocks (final 1 0 ex_hx)) = [0; 200; 400]%Z.
+Proof. vm_compute. repeat split; reflexivity. Qed.
+
+(* a crash-free, fault-free history inside the guard with reaps in the middle of produce steps: the queue holds exactly
+   [3] when the step takes it and [4] is handed off right after GetNextBatch has answered (p = 0: after the queue
+   Delete) — the block holds [3], [4] waits; bound 1: the hand-off of [5] in the middle of the step that takes [4] is
+   accepted because the queue has just been emptied (before the step it would have been refused); a reap after
+   ExecuteTxs (p = 3) sees the mempool without the executed transactions *)
+Definition ex_hm : list item :=
+  [IRun ABoot; IRun (AProduce 100); IArrive 3; IRun AReap; IArrive 4; IMid 200 0; IArrive 5; IRun AReap; IMid 300 0;
+   IArrive 6; IMid 400 3; IRun (AProduce 500); IRun AReap].
+
+Example ex_mid :
+  safe_hist 1 0 st0 ex_hm = true /\ crash_free ex_hm = true /\ fault_free ex_hm = true /\ quiescedb (final 1 0 ex_hm) = true /\
+  committed (final 1 0 ex_hm) = [[]; [3]; [4]; [5]; [6]]%N /\ released (final 1 0 ex_hm) = [[3]; [4]; [5]; [6]]%N /\
+  observe 1 0 (final 1 0 [IRun ABoot; IRun (AProduce 100); IArrive 3; IRun AReap; IArrive 4]) (IMid 200 0) =
+    (3%N, [WQDel [3%N]; WQPut [4%N]; WSeen 4%N; WMeta; WBlock 2 [3%N] 200 false; WBlock 2 [3%N] 200 true; WState 2; WHeight 2]) /\
+  observe 1 0 (final 1 0 [IRun ABoot; IRun (AProduce 100); IArrive 3; IRun AReap; IArrive 4; IMid 200 0; IArrive 5; IRun AReap]) (IRun AReap) = (2%N, []) /\
+  snd (observe 1 0 (final 1 0 [IRun ABoot; IRun (AProduce 100); IArrive 3; IRun AReap; IArrive 4; IMid 200 0; IArrive 5; IRun AReap]) (IMid 300 0)) =
+    [WQDel [4%N]; WQPut [5%N]; WSeen 5%N; WMeta; WBlock 3 [4%N] 300 false; WBlock 3 [4%N] 300 true; WState 3; WHeight 3].
+Proof. vm_compute. repeat split; reflexivity. Qed.
